@@ -101,3 +101,15 @@ Definition flipN_party (G : group) (t i : Z) (mbs : list member) : option Z :=
     then Some (flipN_sum (gq G) (map (fun v => match v with Some z => z | None => 0 end) vals))
     else None
   end.
+
+(* ---- the complaint list of Flip step 3 (…ASTC.cc:1170-1232): complaints are pushed in arrival order (delivery loop: missing or
+   out-of-range openings; check loop: openings that do not match), then std::sort, std::unique, resize ------------------------ *)
+Fixpoint ins_sorted (x : Z) (l : list Z) : list Z :=
+  match l with [] => [x] | y :: r => if x <=? y then x :: l else y :: ins_sorted x r end.
+Definition sort_z (l : list Z) : list Z := fold_right ins_sorted [] l.
+Fixpoint uniq_adj (l : list Z) : list Z :=        (* std::unique: removes adjacent duplicates *)
+  match l with
+  | [] => []
+  | x :: r => match r with [] => [x] | y :: _ => if x =? y then uniq_adj r else x :: uniq_adj r end
+  end.
+Definition complaint_set (raw : list Z) : list Z := uniq_adj (sort_z raw).
